@@ -457,6 +457,10 @@ func propC19(c *Ctx) {
 		fromForm := func(v ssa.Value) bool {
 			conv, ok := v.(*ssa.Convert)
 			if !ok {
+				// the helper's parameter: what Login hands over
+				conv, ok = lreg.Resolve(v).(*ssa.Convert)
+			}
+			if !ok {
 				return false
 			}
 			fc, ok := lreg.Resolve(conv.X).(*ssa.Call)
@@ -658,6 +662,8 @@ func propC19(c *Ctx) {
 		fatalf("anchor: session.Config.Keys not found")
 		return nil
 	}()
+	newFn := w.Fn("shovel/web", "New")
+	newReg := NewRegion(newFn)
 	for _, spec := range []struct {
 		f    *types.Var
 		name string
@@ -670,7 +676,8 @@ func propC19(c *Ctx) {
 					if f, base := fieldOf(st.Addr); f == spec.f {
 						_ = base // every session.Config the repo builds is a Handler's
 						n++
-						if fnName(fn) != "shovel/web.New" {
+						// New, or a part of it that only New calls (newAuthn)
+						if fnName(fn) != "shovel/web.New" && !newReg.Has(fn) {
 							bad = append(bad, fnName(fn))
 						}
 					}
@@ -679,9 +686,8 @@ func propC19(c *Ctx) {
 		}
 		c.Check("R19.5", "who-may-write/Handler."+spec.name, spec.f.Pos(), n > 0 && len(bad) == 0, fmt.Sprintf("%d stores, all in web.New; offenders: %v", n, bad))
 	}
-	newFn := w.Fn("shovel/web", "New")
 	okKey := false
-	for _, ci := range callsIn(newFn) {
+	for _, ci := range newReg.Calls() {
 		if strings.HasSuffix(calleeName(ci), "age.GenerateX25519Identity") {
 			okKey = true
 		}
